@@ -116,6 +116,8 @@ static PDU* extra(int id, vh::Rng& rng, Entry& e) {
                 return p; }
     case 154: { ICMPv6 ic(ICMPv6::TIME_EXCEEDED); { std::vector<uint8_t> od(6, 0x11); ic.add_option(ICMPv6::option(1, od.begin(), od.end())); } ic.extensions().add_extension(some_ext(rng));      // options AND an extension structure
                 Bytes q = quoted6(rng, 8 * rng.range(11, 14)); return (eth0() / ip60() / ic / RawPDU(q.begin(), q.end())).clone(); }
+    // a DHCPv6 message with one option of the largest sizes its 16-bit length field can describe (65532..65535 octets of data)
+    case 155: { DHCPv6 d; d.msg_type(DHCPv6::SOLICIT); d.transaction_id(7); std::vector<uint8_t> big((size_t)(65532 + rng.below(4)), 0x42); d.add_option(DHCPv6::option(1000, big.begin(), big.end())); return d.clone(); }
     case 151: { RTP r; r.payload_type(96); r.padding_size((uint8_t)rng.range(1, 8)); if (rng.coin()) r.padding_size((uint8_t)rng.range(1, 8)); r.padding_size(0);      // padding switched on, changed, and off again
                 return (eth0() / ip0() / UDP(5004, 5004) / r / raw(rng, rng.range(1, 12))).clone(); }
     case 152: { IPSecAH ah; ah.spi(7); ah.seq_number(9); ah.icv(byte_array((size_t)(8 * rng.range(1, 4)), 0x5a)); return (eth0() / ip60() / ah / UDP(7, 9) / raw(rng, rng.range(1, 20))).clone(); }
